@@ -6,7 +6,7 @@ for which C01 is proven over all histories, is run on the same histories as the 
 request:  core-run <nfiles> <graph> <ops>
   graph:  t:tag:d1_d2;t:tag:-     (`-` for no target at all)
   ops (`;`-separated):  w.F.V | r.F | b.T1_T2
-answer: one snapshot per op, ` | `-separated:  [rv=<0|1> ]fs[F=tokens …] db[F:<g|->:checked:changed:failed:stampclass …]
+answer: one snapshot per op, ` | `-separated:  [rv=<0|1> ]fs[F=tokens …] db[F:<g|->:changed:failed:stampclass …]
 Contents are flattened to the token lists the generated scripts really write (see tools/depsgen.py).
 -/
 namespace RedoModel.CoreWire
@@ -63,7 +63,7 @@ def snapshot (g : Graph) (w : World) (n : Nat) : String :=
   let recs := (List.range n).filterMap fun f =>
     let r := w.db f
     if r.changed.isNone && r.checked.isNone && r.failed.isNone && r.stamp.isNone && !r.gen then none else
-    some (toString f ++ ":" ++ (if r.gen then "g" else "-") ++ ":" ++ showRun r.checked ++ ":" ++ showRun r.changed
+    some (toString f ++ ":" ++ (if r.gen then "g" else "-") ++ ":" ++ showRun r.changed
       ++ ":" ++ showRun r.failed ++ ":" ++ stampClass w f r)
   let _ := g
   "fs[" ++ " ".intercalate files ++ "] db[" ++ " ".intercalate recs ++ "]"
